@@ -186,6 +186,27 @@ def ob_routes(chk, ir):
     chk.sample({'obligation': 'factor-only-for-own-session', 'routes': done, 'mints': nm})
 
 
+def ob_last_cookie(chk, ir):
+    """justifies the refined gate stub: when the real checkAuth admits on a session cookie, it is the LAST cookie named auth_cookie"""
+    t = time.time()
+    H, paths = gate.run_checkauth(ir, z3.BitVec('requiredAuthType', 64), cookies=[1, 2], tls='none')
+    ex = H.ex; verdict = 'holds'; n = 0
+    for p in paths:
+        if p.status in ('unsupported', 'unwind'): chk.absorb(ex, paths); chk.obligation('last-cookie', '-', 'inconclusive', p.result); return
+        if p.status != 'returned' or not isinstance(p.result[0], Ptr): continue
+        creds = p.evs('cred')
+        if not creds or creds[-1]['kind'] != 'jwt': continue
+        n += 1
+        alts = gate.last_auth_cookie_alts(ex, p)
+        want = z3.Or([z3.And(c, creds[-1]['token'] == tok) for c, i, tok in alts]) if alts else z3.BoolVal(False)
+        r_, m = ex.model(p.pc, z3.Not(want))
+        if r_ == 'sat':
+            if chk.violation('last-cookie', 'checkAuth', 'checkAuth admits on a session cookie that is not the last auth_cookie of the request', model_dict(m)) == 'new': verdict = 'violated'
+    chk.absorb(ex, paths)
+    if n == 0: chk.obligation('last-cookie', '-', 'inconclusive', 'vacuous'); return
+    chk.obligation('last-cookie: a cookie admission of checkAuth is for the last auth_cookie of the request (premise of the handler sweep)', 'cookies 1..2, no TLS', verdict, paths=len(paths), witness=f'{n} cookie admissions', t=time.time() - t)
+
+
 def ob_totp_one_time(chk, ir):
     """a TOTP code that was accepted is not accepted again (two consecutive calls of validateUserTOTP at arbitrary instants t1 <= t2, same code)"""
     from symx import totpk
@@ -237,6 +258,7 @@ def main(chk):
     chk.assumptions = ['Contract J for cookies; factor verifiers (VIP, Okta, TOTP validation, U2F/WebAuthn assertion checks, password backend, federated provider) are contracts: a verdict about the user / transaction they are given',
                        'pre-state invariant: a stored push transaction / challenge carries the user whose authenticated request created it (its Username field / map key)']
     chk.bounds = {'cookies': '1..2', 'steps': 'one step from an arbitrary pre-state', 'users': 'arbitrary (symbolic names)'}
+    ob_last_cookie(chk, ir)
     ob_routes(chk, ir)
     ob_totp_one_time(chk, ir)
 
